@@ -263,6 +263,7 @@ fn writer_body(spec: Spec) -> BoxedWriter {
 fn make_router(kind: &str, opts: StreamOpts) -> Option<Router> {
     let r = Router::new();
     Some(match kind {
+        "peer" => r.with_erased_handler("/_svs/open", Arc::new(PeerOpen)).with_erased_handler("/_svs/next", Arc::new(PeerNext)).with_erased_handler("/_svs/cancel", Arc::new(PeerCancel)),
         "reader" => r.with_reader_stream(|res: &str| spec_of(res).map(|spec| ScriptedReader { spec, pos: 0, calls: 0 }), opts),
         "value" => r.with_value_stream(|res: &str| spec_of(res).and_then(|s| s.value), opts),
         "typed:u8" => r.with_typed_value_stream::<u8, _>(|res: &str| spec_of(res).and_then(|s| s.typed_u8).map(|v| (*v).clone()), opts),
@@ -346,6 +347,15 @@ impl Servers {
                 let a = l.local_addr().ok()?;
                 tokio::spawn(async move {
                     let _ = repe::websocket_server::WebSocketServer::new(router).serve_listener(l, "/repe").await;
+                });
+                Some(a)
+            })?,
+            "wsc1" => self.rt.block_on(async {
+                // at most ONE off-reader request in flight per connection: further ones are refused (ResourceExhausted)
+                let l = tokio::net::TcpListener::bind("127.0.0.1:0").await.ok()?;
+                let a = l.local_addr().ok()?;
+                tokio::spawn(async move {
+                    let _ = repe::websocket_server::WebSocketServer::new(router).with_offreader_limit(1).serve_listener(l, "/repe").await;
                 });
                 Some(a)
             })?,
@@ -1359,7 +1369,10 @@ struct StallJob {
     stream_token: String,
     evs_tok: String,
     resource: String,
-    handle: std::thread::JoinHandle<HlOut>,
+    /// the job's result arrives here; waiting is bounded (`budget` from the start)
+    rx: std::sync::mpsc::Receiver<HlOut>,
+    started: Instant,
+    budget: Duration,
 }
 
 /// `st<ms>x<count>`
@@ -1378,8 +1391,9 @@ fn start_stall(sv: &mut Servers, p: &Params, client: &str) -> Option<StallJob> {
     let is_ws = client == "wsc";
     let res = resource.clone();
     let budget = Duration::from_secs(60) + Duration::from_millis(ms * count as u64);
-    let handle = std::thread::spawn(move || {
-        rt.block_on(async move {
+    let (tx_done, rx_done) = std::sync::mpsc::channel();
+    std::thread::spawn(move || {
+        let r = rt.block_on(async move {
             let consumer = move |mut reader: Box<dyn Read>| -> Result<Vec<u8>, repe::RepeError> {
                 let mut got = Vec::new();
                 for _ in 0..count {
@@ -1408,7 +1422,8 @@ fn start_stall(sv: &mut Servers, p: &Params, client: &str) -> Option<StallJob> {
                 Ok(x) => x,
                 Err(_) => HlOut::Timeout,
             }
-        })
+        });
+        let _ = tx_done.send(r);
     });
     Some(StallJob {
         p: p.clone(),
@@ -1417,30 +1432,35 @@ fn start_stall(sv: &mut Servers, p: &Params, client: &str) -> Option<StallJob> {
         evs_tok: built.evs_tok.clone(),
         built_logical: built.logical,
         resource,
-        handle,
+        rx: rx_done,
+        started: Instant::now(),
+        budget: budget + Duration::from_secs(5),
     })
 }
 
 fn finish_stall(job: StallJob, idx: &str) -> RawResult {
     let p = &job.p;
-    let puller = if job.client == "sync" { "vec" } else { "consume" };
+    let paused = p.variant.starts_with("pz");
+    let puller = if paused { "vec" } else { "consume" };
     let op = format!(
         "hl {} {} {} {} {} {} {} {} {} {} {} {}",
         idx, p.srv, job.client, puller, p.kind, p.comp, p.chunk, p.depth, job.stream_token, job.evs_tok, p.end.tok(), p.aux()
     );
-    let result = job.handle.join().unwrap_or(HlOut::Err("consumer thread panicked".into()));
+    // never wait for a call into the code under test without a bound
+    let left = job.budget.saturating_sub(job.started.elapsed());
+    let result = job.rx.recv_timeout(left).unwrap_or(HlOut::Timeout);
     unregister(&job.resource);
     let mut failures = Vec::new();
     let mut skip = false;
     let obs = match &result {
         HlOut::Bytes(b) => {
             if *b != job.built_logical {
-                if job.client == "sync" {
+                if paused {
                     failures.push((
                         "svs.hl.vec.paused_bytes_mismatch".to_string(),
                         format!(
-                            "pull_to_vec over the blocking client with a producer pausing {} reported success with {} bytes, producer emitted {}; first difference {:?}",
-                            p.variant, b.len(), job.built_logical.len(), first_diff(b, &job.built_logical)
+                            "pull_to_vec ({} client) with a producer pausing {} reported success with {} bytes, producer emitted {}; first difference {:?}",
+                            job.client, p.variant, b.len(), job.built_logical.len(), first_diff(b, &job.built_logical)
                         ),
                     ));
                 } else {
@@ -1455,7 +1475,12 @@ fn finish_stall(job: StallJob, idx: &str) -> RawResult {
             }
             if job.stream_token.starts_with("z:") { format!("{idx} ok {}", b.len()) } else { format!("{idx} ok {} {}", b.len(), fnv(b)) }
         }
-        // an error (or our own watchdog) is allowed by the property; it says nothing either way
+        HlOut::Timeout => {
+            // the property promises the bytes or an error: a call that never comes back is neither
+            failures.push(("svs.hl.call_never_returned".to_string(), format!("{} over {} ({}) did not return within {:?}", puller, job.client, p.variant, job.budget)));
+            format!("{idx} timeout")
+        }
+        // an error is allowed by the property; it says nothing either way
         _ => {
             skip = true;
             format!("{idx} err")
@@ -1603,6 +1628,45 @@ fn exec_cnext(sv: &mut Servers, out: &mut Out, idx: &str, p: &Params, k: usize) 
     });
     match opened {
         Err(e) => failures.push(("svs.raw.open_failed".into(), e)),
+        Ok(open) if p.srv == "wsc1" => {
+            // one connection pipelines k `next`s at a time; the off-reader cap refuses the surplus (another property's error
+            // code) — a refused request must not have consumed a chunk: what does come back is still every chunk once, one `last`
+            let id = open.stream_id;
+            let body = beve::to_vec(&NextRequest { stream_id: id }).unwrap();
+            let mut total = 0usize;
+            let mut lasts = 0usize;
+            match Conn::connect(sv, &p.srv, addr) {
+                Err(e) => failures.push(("svs.raw.connect".into(), e)),
+                Ok(mut conn) => {
+                    let mut refused = 0usize;
+                    'outer: for _round in 0..20_000 {
+                        let ids: Vec<u64> = (0..k).filter_map(|_| conn.send(sv, "/_svs/next", &body, false).ok()).collect();
+                        let mut all_final_errors = !ids.is_empty();
+                        for rid in ids {
+                            match conn.wait(sv, rid) {
+                                Err(e) => { failures.push((format!("svs.cnext.{}", e.split(':').next().unwrap_or("io").replace(' ', "_")), format!("pipelined next: {e}"))); break 'outer; }
+                                Ok(f) if f.h.ec == 8 => { refused += 1; all_final_errors = false; }
+                                Ok(f) if f.h.ec != 0 => {}
+                                Ok(f) => {
+                                    all_final_errors = false;
+                                    let last = f.query.first().copied().unwrap_or(255);
+                                    total += f.body.len();
+                                    if last == 1 { lasts += 1; }
+                                    toks.push(show_pulled(&Pulled::Chunk { body: f.body, last }, known));
+                                }
+                            }
+                        }
+                        if all_final_errors { break; }
+                    }
+                    out.add("svs.cnext.refused_by_offreader_cap", refused as u64);
+                    conn.close(sv);
+                }
+            }
+            if failures.is_empty() {
+                if lasts != 1 { failures.push(("svs.cnext.last_count".into(), format!("pipelined consumer under an off-reader cap of 1 saw {lasts} chunks with last=1"))); }
+                if total != built.logical.len() { failures.push(("svs.cnext.bytes_total".into(), format!("pipelined consumer under an off-reader cap of 1 received {total} bytes in all, producer emitted {}", built.logical.len()))); }
+            }
+        }
         Ok(open) => {
             let barrier = std::sync::Barrier::new(k);
             let id = open.stream_id;
@@ -1715,8 +1779,25 @@ fn exec_many(sv: &mut Servers, out: &mut Out, idx: &str, srv: &str, chunk: usize
                     }
                 }
             }
-            // … then each to its end
-            for s in streams.iter_mut() {
+            // … then, in a shuffled (non-sorted) order, every fifth stream is cancelled and probed, the others pulled to their end
+            let mut order: Vec<usize> = (0..streams.len()).collect();
+            Rng::new((n * 7919 + l) as u64 | 1).shuffle(&mut order);
+            let mut cancelled: Vec<bool> = vec![false; streams.len()];
+            for &ix in &order {
+                let s = &mut streams[ix];
+                if ix % 5 == 3 {
+                    if let (Some(id), None, 0) = (s.2, &s.5, s.4) {
+                        cancelled[ix] = true;
+                        if let Err(e) = do_cancel(&mut conn, sv, id, ix % 2 == 0) {
+                            s.5 = Some(format!("cancel: {e}"));
+                            continue;
+                        }
+                        if let Pulled::Chunk { .. } = do_next(&mut conn, sv, id, &mut probs) {
+                            failures.push(("svs.many.released_not_error".into(), format!("stream {ix} of {n}: a `next` after its `cancel` returned a chunk")));
+                        }
+                    }
+                    continue;
+                }
                 if let (Some(id), None, 0) = (s.2, &s.5, s.4) {
                     for _ in 0..100_000 {
                         match do_next(&mut conn, sv, id, &mut probs) {
@@ -1735,6 +1816,12 @@ fn exec_many(sv: &mut Servers, out: &mut Out, idx: &str, srv: &str, chunk: usize
                         toks.push("err".into());
                     }
                     None if s.2.is_none() => toks.push("err".into()),
+                    None if cancelled[i] => {
+                        if !s.1.starts_with(&s.3) {
+                            failures.push(("svs.many.prefix_mismatch".into(), format!("stream {i} of {n}: bytes pulled before its cancel are not a prefix of its producer's bytes")));
+                        }
+                        toks.push("x".into());
+                    }
                     None => {
                         if s.3 != s.1 {
                             failures.push(("svs.many.concat_mismatch".into(), format!("stream {i} of {n}: pulled {} bytes, its producer emitted {}; first difference {:?}", s.3.len(), s.1.len(), first_diff(&s.3, &s.1))));
@@ -1760,27 +1847,49 @@ fn exec_many(sv: &mut Servers, out: &mut Out, idx: &str, srv: &str, chunk: usize
 // before some chunk; `pull_to_vec` over the blocking `Client` on its own thread.  One-sided: `Ok`
 // must carry exactly the producer's bytes; an `Err` is a skip.
 // ------------------------------------------------------------------------------------------
-fn start_paused(sv: &mut Servers, p: &Params) -> Option<StallJob> {
+fn start_paused(sv: &mut Servers, p: &Params, client: &str) -> Option<StallJob> {
     let built = build(p)?;
-    built.spec.pause?;
+    let (_, pause_ms) = built.spec.pause?;
     let resource = register(built.spec.clone());
     let addr = sv.addr(&p.srv, &p.kind, p.comp, p.chunk, p.depth, p.level)?;
     let res = resource.clone();
-    let handle = std::thread::spawn(move || match repe::Client::connect(addr) {
-        Err(e) => HlOut::Err(format!("connect:{e}")),
-        Ok(c) => match repe::pull_to_vec(&c, &res) {
-            Ok(b) => HlOut::Bytes(b),
-            Err(e) => HlOut::Err(err_class(&e)),
-        },
+    let (tx_done, rx_done) = std::sync::mpsc::channel();
+    let rt = sv.rt.handle().clone();
+    let cl = client.to_string();
+    std::thread::spawn(move || {
+        let r = match cl.as_str() {
+            "sync" => match repe::Client::connect(addr) {
+                Err(e) => HlOut::Err(format!("connect:{e}")),
+                Ok(c) => match repe::pull_to_vec(&c, &res) {
+                    Ok(b) => HlOut::Bytes(b),
+                    Err(e) => HlOut::Err(err_class(&e)),
+                },
+            },
+            "async" => rt.block_on(async {
+                match repe::AsyncClient::connect(addr).await {
+                    Err(e) => HlOut::Err(format!("connect:{e}")),
+                    Ok(c) => repe::pull_to_vec_async(&c, &res).await.map(HlOut::Bytes).unwrap_or_else(|e| HlOut::Err(err_class(&e))),
+                }
+            }),
+            _ => rt.block_on(async {
+                match repe::WebSocketClient::connect(&format!("ws://{}/repe", addr)).await {
+                    Err(e) => HlOut::Err(format!("connect:{e}")),
+                    Ok(c) => repe::pull_to_vec_async(&c, &res).await.map(HlOut::Bytes).unwrap_or_else(|e| HlOut::Err(err_class(&e))),
+                }
+            }),
+        };
+        let _ = tx_done.send(r);
     });
     Some(StallJob {
         p: p.clone(),
-        client: "sync".to_string(),
+        client: client.to_string(),
         stream_token: stream_tok(&built.logical, built.is_pattern),
         evs_tok: built.evs_tok.clone(),
         built_logical: built.logical,
         resource,
-        handle,
+        rx: rx_done,
+        started: Instant::now(),
+        budget: Duration::from_millis(pause_ms) * 3 + Duration::from_secs(45),
     })
 }
 
@@ -2046,6 +2155,241 @@ fn exec_hl(sv: &mut Servers, out: &mut Out, idx: &str, p: &Params, client: &str,
 }
 
 // ------------------------------------------------------------------------------------------
+// scripted peer: a router whose `/_svs/*` handlers answer from a script — ANY list of answers (chunks with any
+// query bytes, every error code, a wrong version / compression tag) reaches the crate's pullers
+// ------------------------------------------------------------------------------------------
+#[derive(Clone, Debug)]
+enum PeerResp {
+    Chunk(usize, Vec<u8>),
+    Error(u32),
+}
+#[derive(Clone, Debug)]
+struct PeerScript {
+    version: u8,
+    compression: u8,
+    format: u16,
+    resps: Vec<PeerResp>,
+}
+fn peer_scripts() -> &'static Mutex<HashMap<String, PeerScript>> {
+    static S: OnceLock<Mutex<HashMap<String, PeerScript>>> = OnceLock::new();
+    S.get_or_init(|| Mutex::new(HashMap::new()))
+}
+fn peer_streams() -> &'static Mutex<HashMap<u64, (Vec<PeerResp>, usize)>> {
+    static S: OnceLock<Mutex<HashMap<u64, (Vec<PeerResp>, usize)>>> = OnceLock::new();
+    S.get_or_init(|| Mutex::new(HashMap::new()))
+}
+fn code_of(n: u32) -> repe::ErrorCode {
+    repe::ErrorCode::try_from(n).unwrap_or(repe::ErrorCode::InternalError)
+}
+struct PeerOpen;
+struct PeerNext;
+struct PeerCancel;
+static PEER_ID: AtomicU64 = AtomicU64::new(1);
+impl repe::server::HandlerErased for PeerOpen {
+    fn handle(&self, req: &repe::Message) -> Result<repe::Message, repe::RepeError> {
+        let o: OpenRequest = beve::from_slice(&req.body).map_err(|_| repe::RepeError::ServerError { code: repe::ErrorCode::InvalidBody, message: "open".into() })?;
+        let Some(sc) = peer_scripts().lock().unwrap().get(&o.resource).cloned() else {
+            return Err(repe::RepeError::ServerError { code: repe::ErrorCode::MethodNotFound, message: "no script".into() });
+        };
+        let id = PEER_ID.fetch_add(1, Ordering::Relaxed);
+        peer_streams().lock().unwrap().insert(id, (sc.resps.clone(), 0));
+        let body = beve::to_vec(&OpenResponse { version: sc.version, stream_id: id, format: sc.format, compression: sc.compression }).unwrap();
+        Ok(repe::Message::builder().id(req.header.id).body_bytes(body).body_format_code(1).build())
+    }
+}
+impl repe::server::HandlerErased for PeerNext {
+    fn handle(&self, req: &repe::Message) -> Result<repe::Message, repe::RepeError> {
+        let n: NextRequest = beve::from_slice(&req.body).map_err(|_| repe::RepeError::ServerError { code: repe::ErrorCode::InvalidBody, message: "next".into() })?;
+        let mut t = peer_streams().lock().unwrap();
+        let Some((resps, pos)) = t.get_mut(&n.stream_id) else {
+            return Err(repe::RepeError::ServerError { code: repe::ErrorCode::InvalidQuery, message: "unknown".into() });
+        };
+        let r = resps.get(*pos).cloned();
+        *pos += 1;
+        match r {
+            None => Err(repe::RepeError::ServerError { code: repe::ErrorCode::InvalidQuery, message: "script exhausted".into() }),
+            Some(PeerResp::Error(c)) => Err(repe::RepeError::ServerError { code: code_of(c), message: "scripted".into() }),
+            Some(PeerResp::Chunk(len, q)) => Ok(repe::Message::builder().id(req.header.id).query_format_code(0).query_bytes(q).body_format_code(0).body_bytes(pat(7, *pos, len)).build()),
+        }
+    }
+}
+impl repe::server::HandlerErased for PeerCancel {
+    fn handle(&self, req: &repe::Message) -> Result<repe::Message, repe::RepeError> {
+        if let Ok(c) = beve::from_slice::<CancelRequest>(&req.body) {
+            peer_streams().lock().unwrap().remove(&c.stream_id);
+        }
+        Ok(repe::Message::builder().id(req.header.id).body_bytes(beve::to_vec(&true).unwrap()).body_format_code(1).build())
+    }
+}
+
+fn parse_peer(open: &str, resps: &str) -> Option<PeerScript> {
+    let mut sc = PeerScript { version: 1, compression: 0, format: 0, resps: vec![] };
+    for part in open.split('.') {
+        let (k, v) = part.split_at(1);
+        match k { "v" => sc.version = v.parse().ok()?, "z" => sc.compression = v.parse().ok()?, "f" => sc.format = v.parse().ok()?, _ => return None }
+    }
+    if resps != "-" {
+        for t in resps.split(',') {
+            if let Some(c) = t.strip_prefix('e') {
+                sc.resps.push(PeerResp::Error(c.parse().ok()?));
+            } else {
+                let (l, q) = t.strip_prefix('c')?.split_once('q')?;
+                sc.resps.push(PeerResp::Chunk(l.parse().ok()?, unhex(q)?));
+            }
+        }
+    }
+    Some(sc)
+}
+
+fn exec_peer(sv: &mut Servers, out: &mut Out, idx: &str, srv: &str, client: &str, puller: &str, open: &str, resps: &str) -> Option<RawResult> {
+    let sc = parse_peer(open, resps)?;
+    let op = format!("peer {idx} {srv} {client} {puller} {open} {resps}");
+    out.begin(&op);
+    let addr = sv.addr(srv, "peer", 0, 1, 0, 3)?;
+    let resource = format!("peer-{}", RES_COUNTER.fetch_add(1, Ordering::Relaxed));
+    peer_scripts().lock().unwrap().insert(resource.clone(), sc.clone());
+    // the harness's own reading of the script: bytes up to the first answer whose query starts with 1, unless an error (or the end of
+    // the script, which answers an error) comes first; a bad version / compression tag makes every puller refuse
+    let mut expect: Option<Vec<u8>> = None;
+    if sc.version == 1 && sc.compression == 0 {
+        let mut acc = Vec::new();
+        for (j, r) in sc.resps.iter().enumerate() {
+            match r {
+                PeerResp::Error(_) => break,
+                PeerResp::Chunk(len, q) => {
+                    acc.extend(pat(7, j + 1, *len));
+                    if q.first() == Some(&1) { expect = Some(acc.clone()); break; }
+                }
+            }
+        }
+    }
+    let res = resource.clone();
+    let pl = puller.to_string();
+    let budget = WATCHDOG + Duration::from_secs(10);
+    fn all(reader: &mut dyn Read, tiny: bool) -> Result<Vec<u8>, repe::RepeError> {
+        let mut got = Vec::new();
+        if tiny {
+            let mut one = [0u8; 1];
+            while got.len() < 40 {
+                if reader.read(&mut one)? == 0 { return Ok(got); }
+                got.push(one[0]);
+            }
+        }
+        reader.read_to_end(&mut got)?;
+        Ok(got)
+    }
+    let result: HlOut = match client {
+        "sync" => {
+            let (tx, rx) = std::sync::mpsc::channel();
+            std::thread::spawn(move || {
+                let r = (|| -> Result<Vec<u8>, repe::RepeError> {
+                    let c = repe::Client::connect(addr)?;
+                    match pl.as_str() {
+                        "vec" => repe::pull_to_vec(&c, &res),
+                        _ => { let tiny = pl == "c1"; repe::pull_consume(&c, &res, move |r| all(r, tiny)) }
+                    }
+                })();
+                let _ = tx.send(match r { Ok(b) => HlOut::Bytes(b), Err(e) => HlOut::Err(err_class(&e)) });
+            });
+            rx.recv_timeout(budget).unwrap_or(HlOut::Timeout)
+        }
+        _ => {
+            let is_ws = client == "wsc";
+            sv.rt.block_on(async move {
+                let fut = async {
+                    macro_rules! go { ($c:expr) => {{ let c = $c; let r = match pl.as_str() {
+                        "vec" => repe::pull_to_vec_async(&c, &res).await,
+                        _ => { let tiny = pl == "c1"; repe::pull_consume_async(&c, &res, move |mut r| all(&mut r, tiny)).await }
+                    }; match r { Ok(b) => HlOut::Bytes(b), Err(e) => HlOut::Err(err_class(&e)) } }}; }
+                    if is_ws {
+                        match repe::WebSocketClient::connect(&format!("ws://{}/repe", addr)).await { Ok(c) => go!(c), Err(e) => HlOut::Err(format!("connect:{e}")) }
+                    } else {
+                        match repe::AsyncClient::connect(addr).await { Ok(c) => go!(c), Err(e) => HlOut::Err(format!("connect:{e}")) }
+                    }
+                };
+                tokio::time::timeout(budget, fut).await.unwrap_or(HlOut::Timeout)
+            })
+        }
+    };
+    peer_scripts().lock().unwrap().remove(&resource);
+    let mut failures = Vec::new();
+    let obs = match (&result, &expect) {
+        (HlOut::Bytes(b), Some(e)) => {
+            if b != e { failures.push(("svs.peer.bytes_mismatch".to_string(), format!("{puller} over {client}: got {} bytes, the answers up to the end marker carry {}; first difference {:?}", b.len(), e.len(), first_diff(b, e)))); }
+            format!("{idx} ok {} {}", b.len(), fnv(b))
+        }
+        (HlOut::Bytes(b), None) => {
+            failures.push(("svs.peer.error_swallowed".to_string(), format!("{puller} over {client}: the peer answered an error (or a bad tag) before any end marker, yet the puller returned Ok with {} bytes", b.len())));
+            format!("{idx} ok {} {}", b.len(), fnv(b))
+        }
+        (HlOut::Err(e), Some(_)) => {
+            if e.starts_with("connect") { failures.push(("svs.hl.connect".to_string(), e.clone())); }
+            else { failures.push(("svs.peer.unexpected_error".to_string(), format!("{puller} over {client}: every answer up to the end marker was a chunk, yet the puller returned {e}"))); }
+            format!("{idx} err")
+        }
+        (HlOut::Err(e), None) => { if e.starts_with("connect") { failures.push(("svs.hl.connect".to_string(), e.clone())); } format!("{idx} err") }
+        (HlOut::Timeout, _) => { failures.push(("svs.peer.call_never_returned".to_string(), format!("{puller} over {client} did not return within {budget:?}"))); format!("{idx} timeout") }
+        (HlOut::ValueOk(_), _) => format!("{idx} ?"),
+    };
+    Some(RawResult { op, obs, nontrivial: sc.resps.len() >= 2, failures, skip: false, pool: None })
+}
+
+// ------------------------------------------------------------------------------------------
+// entry points of the anchored file, mechanically
+// ------------------------------------------------------------------------------------------
+/// `pub fn` / `pub async fn` / trait methods of `value_stream.rs` this family calls (directly, by name).
+const DRIVEN: [&str; 19] = [
+    "with_value_stream", "with_typed_value_stream", "with_complex_value_stream", "with_reader_stream", "with_writer_stream",
+    "pull_value", "pull_to_vec", "pull_consume", "pull_to_file", "pull_typed_slice", "pull_complex_slice",
+    "pull_value_async", "pull_typed_slice_async", "pull_complex_slice_async", "pull_consume_async", "pull_to_file_async", "pull_to_vec_async",
+    "svs_call", "svs_notify",
+];
+/// … and the ones it does not, with the reason.
+const NOT_DRIVEN: [(&str, &str); 6] = [
+    ("pull_stream", "reached through pull_value (StreamOutput::Value) and pull_to_file (RawFile); its file outputs are C10's family `commit`"),
+    ("pull_to_beve_zst_file", "commit protocol: C10's family"),
+    ("pull_to_beve_file", "commit protocol: C10's family"),
+    ("pull_to_file_trailer_verified", "commit protocol + TrailerHold: C10's family"),
+    ("pull_to_file_verified_async", "commit protocol: C10's family"),
+    ("pull_to_file_trailer_verified_async", "commit protocol + TrailerHold: C10's family"),
+];
+
+fn entry_point_audit(out: &mut Out) -> Vec<String> {
+    let repo = std::env::var("VERIF_REPO").unwrap_or_else(|_| "/repo".into());
+    let text = std::fs::read_to_string(std::path::Path::new(&repo).join("src").join("value_stream.rs")).unwrap_or_default();
+    let text = text.split("#[cfg(test)]").next().unwrap_or("").to_string();
+    let mut names: Vec<String> = Vec::new();
+    let mut in_pub_trait = false;
+    for line in text.lines() {
+        let t = line.trim_start();
+        if t.starts_with("pub trait ") { in_pub_trait = true; }
+        if line.starts_with('}') { in_pub_trait = false; }
+        let mut pres: Vec<&str> = vec!["pub async fn ", "pub fn "];
+        if in_pub_trait { pres.extend(["async fn ", "fn "]); }
+        for pre in pres {
+            if let Some(rest) = t.strip_prefix(pre) {
+                let name: String = rest.chars().take_while(|c| c.is_alphanumeric() || *c == '_').collect();
+                if !name.is_empty() && !names.contains(&name) { names.push(name); }
+            }
+        }
+    }
+    let mut missing = Vec::new();
+    for n in &names {
+        if !DRIVEN.contains(&n.as_str()) && !NOT_DRIVEN.iter().any(|(k, _)| k == n) {
+            out.count(&format!("svs.NOT_DRIVEN.{n}"));
+            missing.push(n.clone());
+        }
+    }
+    out.extra.insert("entry_points".into(), serde_json::json!({"found": names, "not_driven": missing,
+        "not_driven_because": NOT_DRIVEN.iter().map(|(k, v)| format!("{k}: {v}")).collect::<Vec<_>>() }));
+    out.extra.insert("not_driven".into(), serde_json::json!(missing));
+    if !missing.is_empty() {
+        eprintln!("svs: public entry points of value_stream.rs NOT DRIVEN by this family: {:?}", missing);
+    }
+    missing
+}
+
+// ------------------------------------------------------------------------------------------
 // running an op (fresh or replayed) and bookkeeping
 // ------------------------------------------------------------------------------------------
 fn params_from_raw(w: &[&str]) -> Option<(Params, String)> {
@@ -2149,10 +2493,10 @@ impl Runner {
         }
         j
     }
-    fn paused_start(&mut self, p: &Params) -> Option<StallJob> {
+    fn paused_start(&mut self, p: &Params, client: &str) -> Option<StallJob> {
         self.count(p, "paused");
-        self.out.count(&format!("svs.hl.sync.vec.{}", p.variant));
-        let j = start_paused(&mut self.sv, p);
+        self.out.count(&format!("svs.hl.{client}.vec.{}", p.variant));
+        let j = start_paused(&mut self.sv, p, client);
         if j.is_none() {
             self.out.count("svs.generator.unbuildable");
         }
@@ -2173,6 +2517,16 @@ impl Runner {
         self.out.count("svs.op.many");
         self.out.count(&format!("svs.many.live{n}"));
         match exec_many(&mut self.sv, &mut self.out, &idx, srv, chunk, depth, n, l) {
+            Some(r) => self.finish_case(r),
+            None => self.out.count("svs.generator.unbuildable"),
+        }
+    }
+    fn peer(&mut self, srv: &str, client: &str, puller: &str, open: &str, resps: &str) {
+        self.n += 1;
+        let idx = format!("{}", self.n);
+        self.out.count("svs.op.peer");
+        self.out.count(&format!("svs.peer.{client}.{puller}"));
+        match exec_peer(&mut self.sv, &mut self.out, &idx, srv, client, puller, open, resps) {
             Some(r) => self.finish_case(r),
             None => self.out.count("svs.generator.unbuildable"),
         }
@@ -2316,6 +2670,12 @@ fn main() {
     quiet_panics();
     let mut run = Runner { sv: Servers::new(), out: Out::new(&args.out), n: 0, timeouts: 0, recent: HashMap::new(), deadline: if args.out.to_string_lossy().ends_with("-search") { Some(Instant::now() + Duration::from_secs(150)) } else { None } };
     run.out.rule = "real Server (tcp) and WebSocketServer (ws), every producer kind (value: unit/string/struct; typed u8/f64; complex f32; reader with 1..100000-byte reads, Interrupted reads; writer with random write/flush scripts), chunk sizes {1,2,3,7,64,4096,1MiB}, payload lengths k*chunk-1,k*chunk,k*chunk+1 for k=0..4 plus random, depths 0..8, zstd on/off (for zstd the compressed stream is recorded from a separate pull of the same resource), slow producer / slow consumer, failure (Err and panic) injected at k*chunk-1,k*chunk,k*chunk+1 written bytes, scripts of next/cancel (request and notify)/next-past-the-end; then pull_to_vec, pull_value, pull_typed_slice, pull_complex_slice and their async forms over Client, AsyncClient and WebSocketClient. Distinct by op line without its index; non-trivial = at least two pulls or three script steps (raw), payload longer than one chunk or failing producer (hl)".into();
+    if std::env::args().any(|a| a == "--check-entry-points") {
+        let missing = entry_point_audit(&mut run.out);
+        println!("value_stream.rs entry points not driven by the svs family: {:?}", missing);
+        std::process::exit(if missing.is_empty() { 0 } else { 1 });
+    }
+    entry_point_audit(&mut run.out);
     if let Some(ops) = args.replay_ops() {
         for l in ops {
             let w = words(&l);
@@ -2324,8 +2684,8 @@ fn main() {
                 Some("hl") => if let Some((p, client, puller)) = params_from_hl(&w) {
                     if puller == "consume" {
                         if let Some(j) = run.stall_start(&p, &client) { run.stall_finish(j); }
-                    } else if client == "sync" && puller == "vec" && p.variant.starts_with("pz") {
-                        if let Some(j) = run.paused_start(&p) { run.stall_finish(j); }
+                    } else if puller == "vec" && p.variant.starts_with("pz") {
+                        if let Some(j) = run.paused_start(&p, &client) { run.stall_finish(j); }
                     } else {
                         run.hl(&p, &client, &puller);
                     }
@@ -2336,6 +2696,7 @@ fn main() {
                         run.cnext(&p, w[5].parse::<usize>().unwrap_or(2).clamp(1, 16));
                     }
                 }
+                Some("peer") if w.len() == 7 => run.peer(w[2], w[3], w[4], w[5], w[6]),
                 Some("many") if w.len() == 7 => {
                     let f: Vec<usize> = w[3..7].iter().filter_map(|x| x.parse().ok()).collect();
                     if f.len() == 4 && f[0] >= 1 && f[2] <= 5000 { run.many(w[2], f[0], f[1], f[2], f[3]); }
@@ -2351,7 +2712,8 @@ fn main() {
         run.out.finish();
         std::process::exit(0);
     }
-    let thorough = args.thorough();
+    // `--lite`: the quick-size generators whatever the tier (the release-profile leg of the thorough tier)
+    let thorough = args.thorough() && !args.has("--lite");
     let mut r = Rng::new(args.seed);
     let kinds = ["reader", "writer:0", "value", "typed:u8", "typed:f64", "complex"];
     let small_chunks = [1usize, 2, 3, 7, 64, 4096];
@@ -2361,7 +2723,8 @@ fn main() {
     // (S) stalled consumers on the async / WebSocket pullers, on their own threads for the whole run
     let mut stall_jobs: Vec<StallJob> = Vec::new();
     {
-        let mut specs: Vec<(&str, &str, u8, &str)> = vec![("tcp", "async", 0, "st2800x1"), ("ws", "wsc", 0, "st2800x1"), ("tcp", "async", 0, "st700x4"), ("ws", "wsc", 0, "st700x4")];
+        let mut specs: Vec<(&str, &str, u8, &str)> = vec![("tcp", "async", 0, "st2800x1"), ("ws", "wsc", 0, "st2800x1"), ("tcp", "async", 0, "st700x4"), ("ws", "wsc", 0, "st700x4"),
+            ("tcp", "async", 0, "st300x3"), ("ws", "wsc", 0, "st600x2"), ("tcp", "async", 0, "st1100x2"), ("ws", "wsc", 0, "st1100x1")];
         if thorough {
             specs.extend([("tcp", "async", 0, "st6000x1"), ("ws", "wsc", 0, "st6000x1"), ("tcp", "async", 0, "st12000x1"), ("ws", "wsc", 0, "st12000x1"),
                           ("tcp", "async", 1, "st2800x1"), ("ws", "wsc", 1, "st6000x1"), ("tcp", "async", 0, "st2300x3"), ("ws", "wsc", 0, "st2300x3")]);
@@ -2378,16 +2741,18 @@ fn main() {
 
     // (P) paused producers for the blocking puller, on their own threads (joined at the end)
     {
-        let pauses: Vec<(u64, bool)> = if thorough { vec![(6500, true), (6500, false), (12000, false), (30000, true)] } else { vec![(6500, true), (6500, false)] };
-        for (ms, head) in pauses {
+        let mut pauses: Vec<(u64, bool, &str)> = vec![(6500, true, "sync"), (6500, false, "sync"), (300, false, "sync"), (600, true, "async"), (1100, false, "wsc"),
+            (300, true, "wsc"), (600, false, "sync"), (1100, true, "async"), (6500, false, "async"), (6500, true, "wsc")];
+        if thorough { pauses.extend([(12000, false, "sync"), (30000, true, "sync"), (2500, false, "async"), (5500, true, "wsc"), (11000, false, "async"), (2500, true, "sync"), (5500, false, "sync"), (11000, true, "wsc")]); }
+        for (ms, head, client) in pauses {
             rot += 1;
             let chunk = *r.pick(&[256usize, 1024]);
-            let mut p = base("tcp", "writer:0", 0, chunk, rot % 9);
+            let mut p = base(if client == "wsc" { "ws" } else { "tcp" }, "writer:0", 0, chunk, rot % 9);
             let nchunks = 10 + r.below(8) as usize;
             p.evs = (0..nchunks).map(|_| Ev::W(chunk)).chain(std::iter::once(Ev::W(1 + r.below(chunk as u64 - 1) as usize))).collect();
             let at = if head { 0 } else { nchunks / 2 };
             p.variant = format!("pz{ms}at{at}");
-            if let Some(j) = run.paused_start(&p) { stall_jobs.push(j); }
+            if let Some(j) = run.paused_start(&p, client) { stall_jobs.push(j); }
         }
     }
     // (A) boundary grid, uncompressed: every chunk size x k=0..4 x {-1,0,+1}
@@ -2434,7 +2799,7 @@ fn main() {
     }
     // (D) random fragmentation / lengths / everything
     let odd_chunks: Vec<usize> = (0..6).map(|_| 1 + r.below(10_000) as usize).collect();
-    let n_random = if thorough { 30000 } else { 1200 };
+    let n_random = if thorough { 30000 } else { 900 };
     for _ in 0..n_random {
         let chunk = match r.below(12) {
             // io::copy's 8 KiB buffer boundary, 64 KiB ± 1, odd sizes, anything up to 10000
@@ -2670,6 +3035,43 @@ fn main() {
             }
         }
     }
+    // (X) scripted peer: arbitrary answer lists into the crate's pullers — every error code at every position, query bytes
+    // 0/1/2/255/empty/two bytes, empty bodies, scripts that end without an end marker, bad version / compression tags
+    {
+        let qs = ["00", "01", "02", "ff", "-", "0100", "0001"];
+        let codes = [1u32, 2, 3, 4, 5, 6, 7, 8, 9, 4096];
+        let mut scripts: Vec<(String, String)> = Vec::new();
+        for (ci, c) in codes.iter().enumerate() {
+            for pos in [0usize, 1, 3] {
+                let mut v: Vec<String> = (0..pos).map(|j| format!("c{}q00", [5usize, 0, 300][(j + ci) % 3])).collect();
+                v.push(format!("e{c}"));
+                v.push("c4q01".into());
+                scripts.push(("v1.z0.f0".into(), v.join(",")));
+            }
+        }
+        for _ in 0..(if thorough { 600 } else { 60 }) {
+            let n = r.below(7) as usize;
+            let mut v: Vec<String> = (0..n).map(|_| if r.chance(1, 9) { format!("e{}", r.pick(&codes)) } else { format!("c{}q{}", r.pick(&[0usize, 1, 5, 300, 9000]), r.pick(&qs)) }).collect();
+            if r.chance(2, 3) { v.push(format!("c{}q01", r.pick(&[0usize, 3, 70]))); }
+            scripts.push(("v1.z0.f0".into(), if v.is_empty() { "-".into() } else { v.join(",") }));
+        }
+        for open in ["v0.z0.f0", "v2.z0.f0", "v255.z0.f1", "v1.z2.f0", "v1.z255.f1", "v1.z0.f1", "v1.z0.f65535"] {
+            scripts.push((open.into(), "c3q00,c2q01".into()));
+        }
+        for (k, (open, resps)) in scripts.iter().enumerate() {
+            let (srv, client) = [("tcp", "sync"), ("tcp", "async"), ("ws", "wsc")][k % 3];
+            run.peer(srv, client, ["vec", "call", "c1"][(k / 3) % 3], open, resps);
+        }
+    }
+    // (U) my clauses on the saturation path of the WebSocket off-reader cap: pipelined `next`s, cap = 1
+    for kk in 0..(if thorough { 60 } else { 10 }) {
+        let chunk = *r.pick(&[1usize, 3, 7, 64]);
+        let mut p = base("wsc1", "reader", 0, chunk, r.below(9) as usize);
+        p.len = chunk * (3 + r.below(12) as usize) + r.below(chunk as u64 + 1) as usize;
+        p.piece = *r.pick(&[1usize, 5, 8192]);
+        if kk % 3 == 0 { p.speed = 'p'; }
+        run.cnext(&p, 2 + r.below(3) as usize);
+    }
     // (F2) two streams open at once on one connection: isolation of sessions, ids, lookahead
     for _ in 0..(if thorough { 600 } else { 60 }) {
         rot += 1;
@@ -2707,7 +3109,7 @@ fn main() {
     }
     // (H) high-level pullers
     let combos = [("tcp", "sync"), ("tcp", "async"), ("ws", "wsc")];
-    let hl_rounds = if thorough { 60 } else { 4 };
+    let hl_rounds = if thorough { 60 } else { 3 };
     for round in 0..hl_rounds {
         for &(srv, client) in &combos {
             for &comp in &[0u8, 1] {
